@@ -122,3 +122,27 @@ Proof.
   destruct (Z.max_spec a (zmax_list d t)) as [[_ ->]|[_ ->]]; [|auto].
   destruct IH; auto.
 Qed.
+
+(* ---- exhaustive enumeration support for the correspondence harness -------- *)
+(* the idx-th sequence of a given length over an alphabet (little-endian digits) *)
+Fixpoint digits (base : Z) (len : nat) (idx : Z) : list Z :=
+  match len with
+  | O => []
+  | S n => (idx mod base) :: digits base n (idx / base)
+  end.
+
+Definition seq_of_index (alphabet : list Z) (len : nat) (idx : Z) : list Z :=
+  map (fun d => nth (Z.to_nat d) alphabet 0) (digits (Z.of_nat (length alphabet)) len idx).
+
+(* hash of the outputs of f on start, start+1, .., start+n-1 (harness twin: common.block_hash) *)
+Fixpoint block_hash (f : Z -> list Z) (n : nat) (start : Z) (h : Z) : Z :=
+  match n with
+  | O => h
+  | S m => block_hash f m (start + 1) (Z.land (h * 1000003 + hashL (f start) + 7) 2305843009213693951)
+  end.
+
+Fixpoint block_hashes (f : Z -> list Z) (n : nat) (start : Z) : list Z :=
+  match n with
+  | O => []
+  | S m => hashL (f start) :: block_hashes f m (start + 1)
+  end.
